@@ -164,6 +164,8 @@ var responseSpecs = []layerSpec{
 			"SupportsChassisDevice": {"d5[7]"}, "SupportsBridgeDevice": {"d5[6]"}, "SupportsIPMBEventGeneratorDevice": {"d5[5]"}, "SupportsIPMBEventReceiverDevice": {"d5[4]"},
 			"SupportsFRUInventoryDevice": {"d5[3]"}, "SupportsSELDevice": {"d5[2]"}, "SupportsSDRRepositoryDevice": {"d5[1]"}, "SupportsSensorDevice": {"d5[0]"},
 			"Manufacturer": {"{d8[7:0],d7[7:0],d6[7:0]}"}, "Product": {"{d10[7:0],d9[7:0]}"},
+			// optional tail of up to four bytes: whatever is there is copied, the rest stays zero
+			"AuxiliaryFirmwareRevision?": {"copy(d[11:+len(data) -11])", "nil"},
 		}},
 	{Pkg: "pkg/ipmi", Type: "GetChassisStatusRsp", Method: "DecodeFromBytes", Ref: "IPMI v2.0 §28.2",
 		Want: map[string][]string{
